@@ -181,6 +181,8 @@ def run(ctx):
                fail=f"{e} can escape _Packet.decode [{e.why}] via {' -> '.join(q.split('.')[-1] for q in e.chain)}: a truncated / altered packet is not rejected with a ProtocolError")
     from ._pipeline import read_returns_decoded
     read_returns_decoded(ctx, "C03.e")          # nothing reaches the caller of LAN.send around the verifying decoder
+    from ._pipeline import drain_yields_decoded
+    drain_yields_decoded(ctx, "C03.e")
     ctx.require_min("returns", 1)
     ctx.require_min("comparisons", 1)
     ctx.require_min("raises", 1)
